@@ -40,11 +40,11 @@ Spec == Init /\ [][Next]_vars
 OutputSorted == StrictlySorted(item.rule, out)
 PermutationInvariant == rest = {} => out = Canon(item.rule, item.set)
 \* the strict decoder accepts exactly the canonical presentation
-AcceptIffCanonical == StrictlySorted(item.rule, input) <=> input = Canon(item.rule, item.set)
+AcceptIffCanonical == out = <<>> => (StrictlySorted(item.rule, input) <=> input = Canon(item.rule, item.set))
 \* for distinct elements the decoder's weak test is the same as the strict one
-WeakIsStrict == WeaklySorted(item.rule, input) <=> StrictlySorted(item.rule, input)
+WeakIsStrict == out = <<>> => (WeaklySorted(item.rule, input) <=> StrictlySorted(item.rule, input))
 \* length-first order does not depend on a common prefix (type IDs share "A.<address>.<contract>.")
-PrefixInvariant == \A a, b \in item.set : LenFirstLT(<<65, 46>> \o a, <<65, 46>> \o b) <=> LenFirstLT(a, b)
+PrefixInvariant == out = <<>> => \A a, b \in item.set : LenFirstLT(<<65, 46>> \o a, <<65, 46>> \o b) <=> LenFirstLT(a, b)
 \* the two rules differ: some pair is ordered differently (checked on the universe, not per state)
 
 Row == [cat |-> item.cat, rule |-> item.rule, input |-> input, canon |-> out, amap |-> item.amap,
